@@ -22,7 +22,7 @@ pub fn def() -> PropDef {
         id: "C20",
         rule: "histories of 1..40 field sections over a 4-name x 4-value alphabet plus static-table \
                names/values (repeats inside a section force Duplicate), table capacity in {0; 1,16,31,32 \
-               (no entry fits); 33..40 (one entry); 64; 100; 256; 4096}, blocked-streams limit in \
+               (no entry fits); 33..63 (one entry); 64; 80; 100; 127; 150; 256; 4096}, blocked-streams limit in \
                {0,1,2,100}, both h3 tables configured with the same capacity (no in-band capacity \
                instruction), distinct stream ids with occasional header+trailer pairs (plus a directed generator with 30..40 repeat-heavy sections whose instructions arrive in one burst, and three hand-written minimal histories); schedules from \
                the PRNG: encoder-stream bytes delivered in order in arbitrary slices (cuts inside \
@@ -246,8 +246,16 @@ fn gen_config(gen: &str, rng: &mut Rng) -> Config {
     let cap = match gen {
         "cap_0" => 0,
         "cap_sub_entry" => *rng.pick(&[1u64, 16, 31, 32]),
-        "cap_one_entry" => rng.range(33, 40),
-        "cap_64_100" => *rng.pick(&[64u64, 100]),
+        // capacities that are not multiples of 32 (and of 16): MaxEntries is floor(capacity / 32)
+        // on both sides, whatever is left over
+        "cap_one_entry" => {
+            if rng.bool() {
+                rng.range(33, 40)
+            } else {
+                rng.range(41, 63)
+            }
+        }
+        "cap_64_100" => *rng.pick(&[64u64, 80, 100, 127, 150]),
         "cap_256" => 256,
         _ => 4096,
     };
@@ -1108,7 +1116,7 @@ fn run_history(gen: &str, index: u64, seed: u64, rep: &mut Report) {
     rep.count("histories");
     rep.count(&format!("histories[limit={}]", cfg.limit));
     rep.count(&format!("histories[style={}]", STYLES[cfg.style as usize]));
-    rep.count(&format!("histories[capacity={}]", if (33..=40).contains(&cfg.cap) { "33..40".to_string() } else if (1..=32).contains(&cfg.cap) { "1..32".to_string() } else { cfg.cap.to_string() }));
+    rep.count(&format!("histories[capacity={}]", if (33..=63).contains(&cfg.cap) { "33..63".to_string() } else if (1..=32).contains(&cfg.cap) { "1..32".to_string() } else { cfg.cap.to_string() }));
     if cfg.long_values {
         rep.count("histories[long values]");
     }
